@@ -233,7 +233,7 @@ static bool read_index(zckCtx *zck) {
     }
     header = zck->header + zck->lead_size + zck->preface_size;
     zck_log(ZCK_LOG_DEBUG, "Reading index at 0x%x", (unsigned long)(zck->lead_size + zck->preface_size));
-    int max_length = zck->header_size - (zck->lead_size + zck->preface_size);
+    size_t max_length = zck->header_size - (zck->lead_size + zck->preface_size);
     if(!index_read(zck, header, zck->index_size, max_length))
         return false;
 
